@@ -22,7 +22,7 @@ typedef struct { int m[MAXLEN]; int n; } seq_t;
 typedef struct { spif_list_t o[CX_NKIND]; seq_t s; int last_mut; } ent_t;
 typedef struct { int rb; int rid; int ridx; } res_t;
 
-static ent_t pool[MAXPOOL];
+static ent_t pool[MAXPOOL + 4];      /* random histories stop at MAXPOOL; the exhaustive mode can dup 4 times */
 static int npool;
 static int order[CX_NKIND];
 static int labels[8], nlabels;        /* labels probed in every read-back */
